@@ -60,3 +60,29 @@ func VpH_C11_reuse() {
 	}
 	vp.Cover("end")
 }
+
+// VpH_C11_roundtrip: printing a valid position as FEN and parsing the text back yields the same position (placement in
+// all three encodings, side to move, rights, en-passant target, both counters). The position is sparse: both kings on
+// the driver's squares, the squares of the driver's mask arbitrary, every other square empty; rights, en-passant
+// target and halfmove clock arbitrary, fullmove number 1..8191. (The printer runs on the engine's text model of
+// strings.Builder / strconv.Itoa / fmt %c %d; natively it is the real printer.)
+func VpH_C11_roundtrip() {
+	stm := Color(vp.Param("stm"))
+	b := VpSymBoardSparse(stm, vp.Param("wk"), vp.Param("bk"), vp.Param("mask"))
+	b.fullMoves = int(vp.Bits("fullmoves13", 13))
+	vp.Assume(b.fullMoves >= 1)
+	vp.Assume(VpValid(b))
+	text := b.FEN()
+	vp.Assert(len(text) <= 64, "printed-text-within-the-modelled-length")
+	p, err := FromFEN(text)
+	vp.Assert(err == nil, "printed-fen-is-accepted")
+	if err == nil {
+		same := p.SquaresToPiece == b.SquaresToPiece && p.Pieces == b.Pieces && p.Colors == b.Colors
+		vp.Assert(same, "round-trip-preserves-placement")
+		vp.Assert(p.STM == b.STM && p.Castles == b.Castles && p.EnPassant == b.EnPassant, "round-trip-preserves-side-rights-en-passant")
+		vp.Assert(p.FiftyCnt == b.FiftyCnt && p.fullMoves == b.fullMoves, "round-trip-preserves-both-counters")
+		// (printing the parsed position returns the same text: FEN() reads exactly the attributes compared above and has
+		// no other input, so for canonical texts - prints of valid positions - this follows from the three assertions)
+	}
+	vp.Cover("end")
+}
